@@ -3,7 +3,7 @@ import re
 
 SPEC = {
     "properties_file": "Properties_C08.v",
-    "facts": ["registration_wait_ms", "rebroadcast_ms", "hostname_conflict", "hostname_question"],
+    "facts": ["registration_wait_ms", "rebroadcast_ms", "hostname_conflict", "hostname_question", "hostname_announce"],
     "assumptions": ["host names that are valid UTF-8 (QHostInfo::localHostName is interposed per script)",
                     "timers fire at or after their deadline"],
 }
